@@ -132,7 +132,8 @@ class EFloatContext___init__(Contract):
     properties = ['C01']
     binds = {'self.nan_value': 'nan_value', 'self.inf_value': 'inf_value', 'self.rng': 'rng'}
     split = ['nan_kind', 'nan_value', 'inf_value']
-    options = {'noax_first_ms': 8000, 'light_theory': True,
+    # with substitutes: minutes per case -> thorough tier; EFloatContext___init___plain is the quick-tier variant
+    options = {'noax_first_ms': 8000, 'light_theory': True, 'symbolic_tier': 'thorough',
                'opaque': {'fits_p': ['all', 'bool'], 'mag_lt_ec': ['all', 'bool']}}
 
     def post(self, es, nbits, enable_inf, nan_kind, eoffset, rm, overflow, num_randbits, rng, nan_value, inf_value, result):
